@@ -55,6 +55,7 @@ type FS struct {
 	torn     *Term // the write with index == die lands a strict prefix
 	tornAll  *Term // ... everything but the newline
 	nEff     int
+	nFileFd  int
 	proc     int
 	effT     []effRec
 	reads    []effRec
@@ -87,6 +88,20 @@ func (w *World) fsInit() {
 		"(*os.File).Close":           func(ex *Exec, c *callCtx) Value { return NilRef() },
 		"(*os.File).Sync":            func(ex *Exec, c *callCtx) Value { return NilRef() },
 		"(*os.File).Stat":            w.fsFileStat,
+		"(*os.File).Fd": func(ex *Exec, c *callCtx) Value {
+			// a descriptor owned by an *os.File: the runtime closes it when the File is collected
+			w.fs.nFileFd++
+			return IntV{BVC(int64(500+w.fs.nFileFd), 64), false}
+		},
+		ergoPath + ".zzLockFDOwned": func(ex *Exec, c *callCtx) Value {
+			ok := True
+			for _, l := range w.lockEvs {
+				if l.Kind == "flock" && l.Unowned {
+					ok = And(ok, Not(l.G))
+				}
+			}
+			return BoolV{ok}
+		},
 		"(*os.File).ReadAt":          w.fsReadAt,
 		"(*os.File).Write":           w.fsFileWrite,
 		"bufio.NewScanner":           w.fsNewScanner,
